@@ -54,3 +54,8 @@ Theorem c02_tie_status_step_other : forall st s, s <> "fail"%string -> s <> "war
 Proof. exact tie_status_step_other. Qed.
 Theorem c02_tie_policy_exit : forall passed, policy_exit passed = src_policy_exit passed.
 Proof. exact tie_policy_exit. Qed.
+(* hence, for the update as it reads in the current source: folding it over the note levels of a report, in any order, yields the worst one *)
+Theorem c02_src_status_fold_spec : forall ls,
+  let f := fold_left (fun s l => src_status_step s (level_text l)) ls exit_GOOD in
+  (f = exit_FAILURE <-> In LFail ls) /\ (f = exit_WARNING <-> ~ In LFail ls /\ In LWarn ls) /\ (f = exit_GOOD <-> ~ In LFail ls /\ ~ In LWarn ls).
+Proof. exact src_status_fold_spec. Qed.
